@@ -195,8 +195,7 @@ def child_main(conn, pristine, ptype, posttransform=True):
             gate.active = True
             try:
                 c = copy.copy(ds)
-                del c
-                gc.collect()
+                del c   # a shallow copy holds no reference cycle: it is freed right here
                 gate.active = False
                 conn.send(("cleared",))
             except BaseException as e:  # noqa
